@@ -408,8 +408,10 @@ static void gen_zoo(const char *prop, int tier)
 				n = objs_of(-1, kk, list);
 				if (n && !strcmp(prop, "C09") && P(25))
 					add_op(CTX_DRV, t, 0, OP_RAISE, 1 + R(2), P(60) ? 0 : 1 + R(G->nthr), 0, 0);
-				else if (n && !strcmp(prop, "C09") && P(12))
-					add_op(CTX_DRV, t, 0, OP_BURST, list[R(n)], P(80) ? 2 + R(300) : (big ? 4000 + R(66000) : 4000 + R(5000)), 0, 0);
+				else if (n && !strcmp(prop, "C09") && P(18))
+					add_op(CTX_DRV, t, 0, OP_BURST, list[R(n)],
+					       P(35) ? 1024 * (int64_t)(1 + R(P(80) ? 4 : big ? 66 : 8)) + (P(70) ? 0 : R(3) - 1) :	/* buffer-size boundaries */
+					       P(75) ? 2 + R(300) : (big ? 4000 + R(66000) : 4000 + R(5000)), 0, 0);
 				else if (n)
 					add_op(CTX_DRV, t, 0, OP_POST, list[R(n)], 0, 0, 0);
 			} else if (r < 94) {
@@ -426,6 +428,52 @@ static void gen_zoo(const char *prop, int tier)
 		G->cfg.max_steps = 1200000;
 		if (P(40))
 			G->cfg.pipe_sz = 4096;
+	}
+	/* the repeated-deadline kernel-timer optimisation: many wake-ups of loop 0 while one timer stays the
+	 * earliest (>= 5 in a row arms the timerfd), then the deadline moves earlier / later / away */
+	if ((!strcmp(prop, "C04") || !strcmp(prop, "C07") || !strcmp(prop, "C15")) && ndrv > 0 && P(30)) {
+		int ch = add_obj(K_CHAN, -1), f = add_obj(K_FD, 0), t1 = add_obj(K_TIMER, 0), t2 = add_obj(K_TIMER, 0), drv = nloops;
+		int64_t D = (int64_t[]){ 50000000, 400000000, 2000000000, 10000000000LL }[R(4)], s = D / (12 + R(20));
+		int k = 6 + R(5), n = k + 2 + R(8), variant = R(5), j;
+		if (ch >= 0 && f >= 0 && t1 >= 0 && t2 >= 0) {
+			G->obj[f].p[0] = ch; G->obj[f].p[1] = 0; G->obj[f].p[2] = 1;
+			if (P(70))
+				G->method_excl = 0;
+			add_op(CTX_SETUP, 0, 0, OP_REG, f, 0, 0, 0);
+			add_op(CTX_SETUP, 0, 0, OP_REG, t1, 0, D, 0);
+			add_op(CTX_CB, f, 0, OP_CONSUME, ch, 0, 65536, 0);
+			switch (variant) {
+			case 0:	/* a nearer timer appears */
+				add_op(CTX_CB, f, k, OP_REG, t2, 0, s / 2 + 1, 0);
+				break;
+			case 1:	/* the earliest timer goes away, a later one remains */
+				add_op(CTX_SETUP, 0, 0, OP_REG, t2, 0, 3 * D, 0);
+				add_op(CTX_CB, f, k, OP_UNREG, t1, 0, 0, 0);
+				break;
+			case 2:	/* no timer remains while the descriptor keeps the loop alive; a new one comes later */
+				add_op(CTX_CB, f, k, OP_UNREG, t1, 0, 0, 0);
+				add_op(CTX_CB, f, n + 1, OP_REG, t2, 0, pick64(deltas, NDELTAS), 0);
+				break;
+			case 3:	/* re-armed later from its own handler */
+				add_op(CTX_CB, t1, 1, OP_REG, t1, 0, D / 3 + 1, 0);
+				break;
+			default:
+				add_op(CTX_CB, f, k, OP_UNREG, t1, 0, 0, 0);
+				add_op(CTX_CB, f, k, OP_REG, t1, 0, D / 2, 0);
+				break;
+			}
+			for (j = 0; j < n; j++) {
+				add_op(CTX_DRV, drv, 0, OP_PRODUCE, ch, 1, 1 + R(100), 0);
+				add_op(CTX_DRV, drv, 0, OP_SLEEP, 0, s, 0, 0);
+			}
+			if (variant == 2) {
+				/* keep the loop running past the old expiry, then one more wake-up */
+				add_op(CTX_DRV, drv, 0, OP_SLEEP, 0, D + D / 4, 0, 0);
+				add_op(CTX_DRV, drv, 0, OP_PRODUCE, ch, 1, 7, 0);
+				add_op(CTX_DRV, drv, 0, OP_SLEEP, 0, s, 0, 0);
+				add_op(CTX_DRV, drv, 0, OP_PRODUCE, ch, 1, 7, 0);
+			}
+		}
 	}
 	gen_absent_facilities(w.faults_pct);
 	gen_eintr(nloops, w.eintr_pct);
